@@ -158,6 +158,8 @@ Space ==
     [] Window = "quick_struct" ->
          Scns({"struct"}, {"single", "nested", "slice2", "pslice2", "map2", "pair", "nslice2", "nmap2"}, {<<"int", "int", "int">>}, RMenuM, V3a, V3b)
          \cup Scns({"struct"}, {"ptr", "nptr", "slice2", "nmap2"}, {<<"string", "string", "int">>}, RMenuM, V3a, V3b)
+         \* pointer members (*int): value 0 = nil (empty), 1 = pointer to 0 (NOT empty), 2 = pointer to 5; equality of pointees
+         \cup Scns({"struct"}, {"single", "slice2"}, {<<"ptr", "ptr", "ptr">>, <<"ptr", "ptr", "int">>}, RMenuS, V3a, V3b)
          \cup Scns({"struct"}, {"single", "slice2", "nslice2"}, {<<"int", "string", "bool">>}, {<<>>, <<"e1">>, <<"e2">>, <<"e1", "e2">>}, [1..3 -> 0..1], {<<0,0,0>>, <<1,0,0>>})
     [] Window = "quick_flat" ->
          Scns({"map"}, {"single", "slice2"}, {<<"int", "int", "int">>, <<"string", "string", "string">>, <<"bool", "bool", "bool">>}, RMenuM, V3a, V3b)
@@ -166,7 +168,8 @@ Space ==
     [] Window = "thorough_struct1" ->
          Scns({"struct"}, StructLayouts, {<<"int", "int", "int">>}, RMenuL, V3a, V3b)
     [] Window = "thorough_struct2" ->
-         Scns({"struct"}, StructLayouts, {<<"float", "float", "int">>, <<"string", "bool", "bool">>, <<"uint", "uint", "uint">>, <<"string", "string", "string">>}, RMenuM, V3a, V3b)
+         Scns({"struct"}, StructLayouts, {<<"float", "float", "int">>, <<"string", "bool", "bool">>, <<"uint", "uint", "uint">>, <<"string", "string", "string">>,
+                                         <<"ptr", "ptr", "ptr">>, <<"ptr", "ptr", "int">>}, RMenuM, V3a, V3b)
     [] Window = "thorough_struct3" ->
          Scns({"struct"}, StructLayouts, {<<"int", "string", "bool">>, <<"float", "uint", "string">>}, {<<>>, <<"e1">>, <<"e2">>, <<"e1", "e2">>}, V3all, V3b)
     [] Window = "thorough_flat" ->
